@@ -2294,8 +2294,8 @@ PREFIX (_translate) (region_type_t *region, int x, int y)
             pbox_out->x2 = x2 = (overflow_int_t)pbox->x2 + x;
             pbox_out->y2 = y2 = (overflow_int_t)pbox->y2 + y;
 
-            if (((x2 - PIXMAN_REGION_MIN) | (y2 - PIXMAN_REGION_MIN) |
-                 (PIXMAN_REGION_MAX - x1) | (PIXMAN_REGION_MAX - y1)) <= 0)
+            if (x2 <= PIXMAN_REGION_MIN || y2 <= PIXMAN_REGION_MIN ||
+		x1 >= PIXMAN_REGION_MAX || y1 >= PIXMAN_REGION_MAX)
             {
                 region->data->numRects--;
                 continue;
@@ -2314,19 +2314,35 @@ PREFIX (_translate) (region_type_t *region, int x, int y)
             pbox_out++;
 	}
 
-        if (pbox_out != pbox)
-        {
-            if (region->data->numRects == 1)
-            {
-                region->extents = *PIXREGION_BOXPTR (region);
-                FREE_DATA (region);
-                region->data = (region_data_type_t *)NULL;
-	    }
-            else
-	    {
-		pixman_set_extents (region);
-	    }
+	if (region->data->numRects == 0)
+	{
+	    region->extents.x2 = region->extents.x1;
+	    region->extents.y2 = region->extents.y1;
+	    FREE_DATA (region);
+	    region->data = pixman_region_empty_data;
 	}
+	else if (region->data->numRects == 1)
+	{
+	    region->extents = *PIXREGION_BOXPTR (region);
+	    FREE_DATA (region);
+	    region->data = (region_data_type_t *)NULL;
+	}
+	else
+	{
+	    /* Dropping and clipping rectangles can leave adjacent bands
+	     * with identical spans: have validate() rebuild the banding
+	     * and the extents (empty extents make it do the work).
+	     */
+	    region->extents.x1 = region->extents.x2 = 0;
+	    validate (region);
+	}
+    }
+    else if (!region->data && !GOOD_RECT (&region->extents))
+    {
+	/* A single rectangle of which nothing representable is left */
+	region->extents.x2 = region->extents.x1;
+	region->extents.y2 = region->extents.y1;
+	region->data = pixman_region_empty_data;
     }
 
     GOOD (region);
